@@ -33,6 +33,8 @@ struct result {
         uint32_t comp_len[4];
         unsigned char decomp_ok[4];
         uint32_t adler;
+        uint32_t stream_sig[4][3][2]; /* streaming compressor, several calls with flushes, default / static / custom tables: (length, Adler-32) of the output */
+        uint32_t inflate_sig[4];      /* streaming decompressor fed in pieces */
 };
 
 static unsigned char data[NDATA];
@@ -113,6 +115,68 @@ workload(struct result *r, int seedoff)
                 st->next_out = back;
                 st->avail_out = NDATA;
                 r->decomp_ok[level] = isal_inflate(st) == 0 && st->total_out == (uint32_t) n && memcmp(back, d, n) == 0 && st->block_state == ISAL_BLOCK_FINISH;
+                {       /* the same data through several isal_deflate calls (block headers go out while end_of_stream is 0; sync and full flushes;
+                         * the library's default and static tables and a custom one), then through isal_inflate in pieces */
+                        int tb;
+                        static __thread struct isal_hufftables custom;
+                        static __thread struct isal_huff_histogram hist;
+                        static __thread unsigned char sout[NDATA + 900];
+                        for (tb = 0; tb < 3; tb++) {
+                                uint32_t fed = 0;
+                                int call = 0;
+                                isal_deflate_init(z);
+                                z->level = level;
+                                z->level_buf = lb;
+                                z->level_buf_size = ISAL_DEF_LVL3_DEFAULT;
+                                z->gzip_flag = IGZIP_GZIP;
+                                if (tb == 1)
+                                        isal_deflate_set_hufftables(z, NULL, IGZIP_HUFFTABLE_STATIC);
+                                else if (tb == 2) {
+                                        memset(&hist, 0, sizeof(hist));
+                                        isal_update_histogram(d, 2000, &hist);
+                                        isal_create_hufftables(&custom, &hist);
+                                        isal_deflate_set_hufftables(z, &custom, IGZIP_HUFFTABLE_CUSTOM);
+                                }
+                                z->next_out = sout;
+                                z->avail_out = sizeof(sout);
+                                while (z->internal_state.state != ZSTATE_END && call < 64) {
+                                        if (z->avail_in == 0 && fed < (uint32_t) n) {
+                                                uint32_t c = (uint32_t) n - fed < 700 ? (uint32_t) n - fed : 700;
+                                                z->next_in = d + fed;
+                                                z->avail_in = c;
+                                                fed += c;
+                                        }
+                                        z->end_of_stream = fed == (uint32_t) n;
+                                        z->flush = z->end_of_stream ? NO_FLUSH : (call % 3 == 0 ? SYNC_FLUSH : call % 3 == 1 ? NO_FLUSH : FULL_FLUSH);
+                                        if (isal_deflate(z) != COMP_OK)
+                                                break;
+                                        call++;
+                                }
+                                r->stream_sig[level][tb][0] = z->total_out;
+                                r->stream_sig[level][tb][1] = isal_adler32(1, sout, z->total_out);
+                        }
+                        {
+                                uint32_t fed = 0, total = r->comp_len[level];
+                                int ret = 0;
+                                isal_inflate_reset(st);
+                                st->crc_flag = level % 2 ? ISAL_GZIP : ISAL_ZLIB;
+                                st->next_out = back;
+                                st->avail_out = NDATA;
+                                st->avail_in = 0;
+                                while (st->block_state != ISAL_BLOCK_FINISH && ret == 0) {
+                                        if (st->avail_in == 0) {
+                                                uint32_t c = total - fed < 333 ? total - fed : 333;
+                                                if (c == 0)
+                                                        break;
+                                                st->next_in = r->comp[level] + fed;
+                                                st->avail_in = c;
+                                                fed += c;
+                                        }
+                                        ret = isal_inflate(st);
+                                }
+                                r->inflate_sig[level] = isal_adler32(1, back, st->total_out) ^ (uint32_t) ret;
+                        }
+                }
                 free(z);
                 free(st);
                 free(lb);
